@@ -244,7 +244,7 @@ def run(tier, seed):
         n = 6000
     chk.machine_family("repository-prolog-files", repo_file_scenarios(), features=features, opts_list=DEC)
     chk.machine_family("F5-multiclause-heads", f5_multiclause(rnd, 400 if tier == "quick" else 6000), features=features)
-    frag = {"ops"}
+    frag = {"ops", "rich"}
     scns = [gen.random_scenario(rnd, frag, nclauses=3, depth=rnd.choice([1, 2, 3])) for _ in range(n)]
     for i in range(0, n, 4000):
         chk.machine_family("random-C01-fragment-%d" % (i // 4000), scns[i:i + 4000], features=features, opts_list=DEC)
